@@ -616,11 +616,14 @@ class TrialConverter:
 
     completion_time = None
     infeasibility_reason = None
-    if proto.state == study_pb2.Trial.State.SUCCEEDED:
+    if proto.state in (
+        study_pb2.Trial.State.SUCCEEDED,
+        study_pb2.Trial.State.INFEASIBLE,
+    ):
       if proto.HasField('end_time'):
         completion_ts = proto.end_time.seconds + 1e-9 * proto.end_time.nanos
         completion_time = datetime.datetime.fromtimestamp(completion_ts)
-    elif proto.state == study_pb2.Trial.State.INFEASIBLE:
+    if proto.state == study_pb2.Trial.State.INFEASIBLE:
       infeasibility_reason = proto.infeasible_reason
 
     metadata = common.Metadata()
